@@ -103,6 +103,11 @@ class WireChopManager(WireManagerBase):
     def grade(self) -> None:
         self.update()
 
+        # start from scratch if this is not the first call (a mesh can be written more than once)
+        self.grading.specification.clear()
+        for wire in self.wires:
+            wire.grading.specification.clear()
+
         # Create a proper Grading from chops
         for chop in self.chops:
             self.grading.add_chop(chop)
